@@ -145,6 +145,9 @@ def d1_reaching_defs(ctx: Ctx):
                       f'leaves {show(r)[:200]}: the statements after the `if` run only when the arm that falls through was taken')
         else:
             general.append(r)
+    ctx.check(len(general) != len(ex.returns), RD, fn, '_ReachingDefs._visit_if', 'an arm that always returns takes no part in the merge',
+              'both arms are merged whatever they end in: after `if c: return 0 else: t = 1` the name t is dropped (it is not defined in the arm that '
+              'returned) and `return t` fails in every later analysis')
     if len(general) != len(ex.returns):
         _check_always_returns(ctx)
     _check_phi(ctx, fn, '_visit_if', general, base=IN, domain={dom},
@@ -300,7 +303,7 @@ def _check_always_returns(ctx: Ctx):
         out = [((), block(()))]
         kinds = list(leaves)
         if depth > 0:
-            inner = blocks(depth - 1)
+            inner = [x for x in blocks(depth - 1) if len(x[0]) <= 1]      # arms of one statement keep the family small
             for (da, a), (db, b) in product(inner, inner):
                 kinds.append((('if', da, db), Obj('IfStmt', ift=a, iff=b)))
             for d, b in inner:
@@ -1316,6 +1319,12 @@ from ..selftest import Mutant  # noqa: E402
 
 MUTANTS = [
     # D1
+    Mutant('returning-arm-merged', RD, "        if ift_returns != iff_returns:\n            self.phis[stmt] = {}\n            return iff_out if ift_returns else ift_out\n", "", 'C13.D1',
+           'finding F39 before its repair: `if c: return 0 else: t = 1; return t` fails with KeyError t'),
+    Mutant('returning-arm-kept-instead-of-the-other', RD, "            return iff_out if ift_returns else ift_out", "            return ift_out if ift_returns else iff_out", 'C13.D1'),
+    Mutant('one-armed-if-counts-as-returning', RD, "        case ContextStmt(body=body):\n            return _always_returns(body)\n        case _:\n            return False",
+           "        case ContextStmt(body=body) | If1Stmt(body=body):\n            return _always_returns(body)\n        case _:\n            return False", 'C13.D1'),
+    Mutant('either-arm-returning-counts', RD, "            return _always_returns(ift) and _always_returns(iff)", "            return _always_returns(ift) or _always_returns(iff)", 'C13.D1'),
     Mutant('while-cond-under-entry-env', RD, "        self._visit_expr(stmt.cond, body_in)", "        self._visit_expr(stmt.cond, ctx)", 'C13.D1'),
     Mutant('loop-phi-ignores-body', RD, "            phi, ctx = self._add_phi(name, stmt, ctx[name], body_out[name], ctx, is_loop=True)", "            phi, ctx = self._add_phi(name, stmt, ctx[name], body_in[name], ctx, is_loop=True)", 'C13.D1', count=2, nth=0),
     Mutant('for-target-gets-no-phi', RD, "mutated = ctx.keys() & (self.def_ids[stmt.body] | set(stmt.target.names()))", "mutated = ctx.keys() & self.def_ids[stmt.body]", 'C13.D1',
